@@ -1,6 +1,7 @@
 from __future__ import annotations
 
 import numbers
+import os
 import pathlib
 import sys
 import mmap
@@ -1512,6 +1513,8 @@ class Bits:
         """
         # If the bitstring is file based then we don't want to read it all in to memory first.
         chunk_size = 8 * 100 * 1024 * 1024  # 100 MiB
+        if os.environ.get("BITSTRING_VERIF") == "1" and "BITSTRING_VERIF_TOFILE_CHUNK_BITS" in os.environ:
+            chunk_size = int(os.environ["BITSTRING_VERIF_TOFILE_CHUNK_BITS"])
         for chunk in self.cut(chunk_size):
             f.write(chunk.tobytes())
 
